@@ -64,6 +64,7 @@ type Exec struct {
 	discBody  []map[*ssa.BasicBlock]bool
 	ovfN      int
 	bindErrors []string
+	noOvf      bool
 	assumedObjInv map[string]bool
 	specs     map[string]*specInst
 	specDecls []string
@@ -688,7 +689,19 @@ func (x *Exec) step(st *State, ins ssa.Instruction) {
 	case *ssa.UnOp:
 		fr.regs[in] = x.unop(st, in)
 	case *ssa.BinOp:
+		// the synthetic index of a range loop cannot overflow (it is bounded by the length): no ovf obligation
+		if in.Op == token.ADD {
+			if xv, ok := in.X.(*ssa.Phi); ok && xv.Comment == "rangeindex" {
+				x.noOvf = true
+			}
+			if ld, ok := in.X.(*ssa.UnOp); ok && ld.Op == token.MUL {
+				if al, ok := ld.X.(*ssa.Alloc); ok && al.Comment == "rangeindex" {
+					x.noOvf = true
+				}
+			}
+		}
 		fr.regs[in] = x.binop(st, in.Op, x.get(st, in.X), x.get(st, in.Y), in.Type())
+		x.noOvf = false
 	case *ssa.FieldAddr:
 		b := x.get(st, in.X)
 		if b.K != KPtr {
@@ -1155,7 +1168,7 @@ func (x *Exec) arith(st *State, rt types.Type, term, what string) *Value {
 			return leaf(rt, fmt.Sprintf("(mod %s %s)", term, pow2(bits)))
 		}
 	}
-	if x.fc != nil && x.fc.Checks["ovf"] && st.top().depth == 0 && x.discovery == 0 {
+	if x.fc != nil && x.fc.Checks["ovf"] && st.top().depth == 0 && x.discovery == 0 && !x.noOvf {
 		if b, ok := rt.Underlying().(*types.Basic); ok {
 			if lo, hi, ok := intRange(b); ok {
 				x.ovfN++
